@@ -19,3 +19,8 @@ CLAIMED['C19'] = (
  'Per opcode: for every stack of depth 0..arity+1 with operand items of every length 0..5 (arithmetic) / 0..2 (stack ops) and fully symbolic content, z3 shows the real op method has the consensus outcome (same success/failure, same stack) or exactly a listed deviation; through the real Script.evaluate: every program of <= 3-4 (thorough 4) commands over a 13-symbol flow/verdict alphabet with symbolic push contents has the reference verdict. Anything that is neither consensus nor a listed deviation is reported after concrete replay.',
  'Trusted: z3, proxy/shim layer (witness replay per path), reference interpreter /verif/ref/interp.py, hash opcodes as shared uninterpreted symbols. Outside: CHECKSIG family, altstack, CLTV/CSV, longer programs. Listed findings: 10 deviation models (operand order of SUB/LESSTHAN.., WITHIN, 2SWAP, PICK/ROLL, TUCK, byte-wise truthiness and NUMEQUAL).',
  'DESIGN.md C19')
+CLAIMED['C17'] = (
+ 'symbolic execution of the real Value/value_to_satoshi/add_output code with an exact integer (LIA) model of IEEE-754 double rounding; per-path SMT obligations discharged by z3',
+ 'For every integer amount 0..21e14 and every digit string of the listed decimal counts, for each denominator from µsat to M and the listed networks, z3 shows the real parsing code returns exactly the integer number of smallest units (or exactly the listed off-by-one deviation above 2^50 for non-unit denominators); from_satoshi round trip and Value.str digits exact for unit and sat denominators; Transaction.add_output accepts a float only if it is an exact integer. Each float operation is modelled exactly (round-half-even with explicit remainder), validated by replaying a witness per path on real floats.',
+ "Trusted: z3 (LIA), the exact float model symx/lia.py (validated per path), contracts of float(str) and '%.Nf' (correct rounding). Outside: 'auto' denominator, Value arithmetic operators, from_satoshi with m/µ/fin/c/d denominators (z3 timeouts, not claimed), negative amounts.",
+ 'DESIGN.md C17')
